@@ -9,7 +9,7 @@ pub fn replay_sampler2(id: &str, fl: &str, a: &[u64], words: &[u64]) -> Option<(
         "standard_normal" => { let mut rng = ScriptRng::new(words, 0x5eed); let x: f64 = rd::StandardNormal.sample(&mut rng);
             Some((x.is_finite(), format!("StandardNormal.sample(words {:?}) = {:?}", words, x))) }
         "exp1" => { let mut rng = ScriptRng::new(words, 0x5eed); let x: f64 = rd::Exp1.sample(&mut rng);
-            Some((x.is_finite() && x >= 0.0, format!("Exp1.sample(words {:?}) = {:?}", words, x))) }
+            Some((x.is_finite() && x > 0.0, format!("Exp1.sample(words {:?}) = {:?} (support (0, inf))", words, x))) }
         "normal_from_zscore" if a.len() >= 3 => {
             let (m, sd, z) = (f32::from_bits(a[0] as u32), f32::from_bits(a[1] as u32), f32::from_bits(a[2] as u32));
             let n = rd::Normal::<f32>::new(m, sd).ok()?; let got = n.from_zscore(z); let want = m + sd * z;
